@@ -231,7 +231,7 @@ def check_c10(case, stats):
 
 
 CHECKS = {'check_c10': check_c10}
-_B = {'quick': 40, 'thorough': 400}
+_B = {'quick': 60, 'thorough': 500}
 
 
 def shards(tier):
